@@ -51,21 +51,21 @@ type simNode struct {
 
 // h3 is the state of one H3 run.
 type h3 struct {
-	t       *testing.T
-	s       *simrt.Sim
-	oc      *hx.Outcome
-	prog    *hx.Program
-	dir     string
-	bus     *nats.Bus
-	cluster *raft.Cluster
-	nodes   []*simNode
-	nextSim int
-	stop    bool
-	cfgHook func(n *simNode, c *Config)
+	t          *testing.T
+	s          *simrt.Sim
+	oc         *hx.Outcome
+	prog       *hx.Program
+	dir        string
+	bus        *nats.Bus
+	cluster    *raft.Cluster
+	nodes      []*simNode
+	nextSim    int
+	stop       bool
+	cfgHook    func(n *simNode, c *Config)
 	baseConfig func() *Config // when set, servers are configured from this instead of NewDefaultConfig (and telemetry is left as it says)
-	verbose bool
-	logHits map[string]int // server log messages of interest, counted over all servers
-	client  *nats.Conn
+	verbose    bool
+	logHits    map[string]int // server log messages of interest, counted over all servers
+	client     *nats.Conn
 }
 
 func (h *h3) fail(clause, sig, format string, a ...any) {
